@@ -64,12 +64,22 @@ Fixpoint pattern_from (fuel : nat) (i seed : Z) : list Z :=
 Definition pattern (len seed : Z) : list Z := pattern_from (Z.to_nat len) 0 seed.
 Definition checksum (l : list Z) : Z := fold_left (fun a b => (a * 31 + b + 1) mod 1000000007) l 0.
 Definition o_msg (m : list Z) : list Z := [zlen m; checksum m] ++ firstn 16 m.
+Fixpoint insert_item (x : Z * Z) (l : list (Z * Z)) : list (Z * Z) :=
+  match l with
+  | [] => [x]
+  | y :: r => if (fst x <? fst y) || ((fst x =? fst y) && (snd x <=? snd y)) then x :: l else y :: insert_item x r
+  end.
+Definition sort_items (l : list (Z * Z)) : list (Z * Z) := fold_right insert_item [] l.
 
+(* a message on the wire of the checker: len seed nonce(12) rekey [32 key bytes when rekey = 1: both ends register that
+   key for the live session before the message is sent] *)
 Fixpoint rd_msgs (n : nat) (l : list Z) : list (Z * Z * list Z) * list Z :=
   match n with
   | O => ([], l)
   | S k => let '(len, l) := w_next l in let '(seed, l) := w_next l in
            let nonce := map (fun b => b mod 256) (firstn 12 l) in let l := skipn 12 l in
+           let '(rekey, l) := w_next l in
+           let l := if rekey =? 0 then l else skipn 32 l in
            let '(r, l) := rd_msgs k l in ((len, seed, nonce) :: r, l)
   end.
 
@@ -85,6 +95,14 @@ Definition run (input : list Z) : list Z :=
     let accepted := filter (fun m => let '(len, _, _) := m in negb (transport_max_payload <? len)) msgs in
     map (fun m => let '(len, _, _) := m in if transport_max_payload <? len then 0 else 1) msgs
     ++ [zlen accepted] ++ flat_map (fun m => let '(len, seed, _) := m in o_msg (pattern len seed)) accepted
+  else if mode =? 4 then
+    (* several threads send at the same time: frames are written whole, so whatever the interleaving every accepted payload
+       is delivered exactly once; the order between threads is not fixed, so the multiset is compared (sorted) *)
+    let '(n, l) := w_next l in
+    let '(msgs, _) := rd_msgs (Z.to_nat n) l in
+    let accepted := filter (fun m => let '(len, _, _) := m in negb (transport_max_payload <? len)) msgs in
+    let items := map (fun m => let '(len, seed, _) := m in (len, checksum (pattern len seed))) accepted in
+    [zlen items] ++ flat_map (fun p => [fst p; snd p]) (sort_items items)
   else if mode =? 3 then
     (* what one send puts on the wire *)
     let '(msgs, _) := rd_msgs 1 l in
